@@ -1,6 +1,6 @@
 #include "avtp/acf/CanBrief.h"
 #include "drivers.h"
 uint64_t drv_canbrief_setpayload(void *pdu, uint32_t id, uint8_t *payload, uint16_t len, int variant) {
-    return (uint64_t)Avtp_CanBrief_SetPayload((Avtp_CanBrief_t *)pdu, id, payload, len, (Avtp_CanVariant_t)variant);
+    return (uint64_t)Avtp_CanBrief_SetPayload((Avtp_CanBrief_t *)pdu, id, payload, len, variant == -1 ? AVTP_CAN_FD : variant == -2 ? AVTP_CAN_CLASSIC : (Avtp_CanVariant_t)variant);
 }
 uint64_t drv_canbrief_finalize(void *pdu, uint16_t len) { return (uint64_t)Avtp_CanBrief_Finalize((Avtp_CanBrief_t *)pdu, len); }
